@@ -137,27 +137,49 @@ func c15entry(n1, n2 int, reuse bool) {
 
 // H_C15_case: u2 is u1 with the letter case of every byte of scheme and
 // host flipped on a symbolic selection: equal. User part compared exactly.
-func H_C15_case(nu, nh int) {
+func H_C15_case(nu, nh int) { c15case(nu, nh, false) }
+
+// H_C15_case6: the host is an IPv6 reference "[" hex digits / ':' "]" with a port.
+func H_C15_case6(nu, nh int) { c15case(nu, nh, true) }
+
+func c15case(nu, nh int, v6 bool) {
 	user := vBytes(nu)
 	host := vBytes(nh)
 	for i := range user {
 		vAssume(isAlnum(user[i]))
 	}
 	for i := range host {
-		vAssume(isAlnum(host[i]))
+		if v6 {
+			c := host[i]
+			vAssume((c >= '0' && c <= '9') || (c >= 'a' && c <= 'f') || (c >= 'A' && c <= 'F') || c == ':')
+		} else {
+			vAssume(isAlnum(host[i]))
+		}
 	}
 	b1 := append([]byte("sip:"), user...)
 	b1 = append(b1, '@')
+	if v6 {
+		b1 = append(b1, '[')
+	}
 	b1 = append(b1, host...)
+	if v6 {
+		b1 = append(b1, "]:5060"...)
+	}
 	b1 = append(b1, ";Lr;x=Ab?h=V"...)
 	b2 := append([]byte("SIP:"), user...)
 	b2 = append(b2, '@')
+	if v6 {
+		b2 = append(b2, '[')
+	}
 	for i := range host {
 		c := host[i]
 		if vBool() && ((c >= 'a' && c <= 'z') || (c >= 'A' && c <= 'Z')) {
 			c ^= 0x20
 		}
 		b2 = append(b2, c)
+	}
+	if v6 {
+		b2 = append(b2, "]:5060"...)
 	}
 	b2 = append(b2, ";X=aB;lR?H=v"...)
 	var u1, u2 PsipURI
